@@ -194,9 +194,11 @@ class CSSStyleSheet(css_parser.stylesheets.StyleSheet):
                 self._log.error('CSSStylesheet: CSSImportRule not allowed '
                                 'here.', token, xml.dom.HierarchyRequestErr)
                 return expected
-            elif rule.wellformed:
-                self.insertRule(rule)
+            elif not rule.wellformed:
+                # a discarded statement does not advance the order state
+                return expected
 
+            self.insertRule(rule)
             return 1
 
         def namespacerule(expected, seq, token, tokenizer):
@@ -208,18 +210,20 @@ class CSSStyleSheet(css_parser.stylesheets.StyleSheet):
                 self._log.error('CSSStylesheet: CSSNamespaceRule not allowed '
                                 'here.', token, xml.dom.HierarchyRequestErr)
                 return expected
-            elif rule.wellformed:
-                if rule.prefix not in self.namespaces:
-                    # add new if not same prefix
-                    self.insertRule(rule, _clean=False)
-                else:
-                    # same prefix => replace namespaceURI
-                    for r in self.cssRules.rulesOfType(rule.NAMESPACE_RULE):
-                        if r.prefix == rule.prefix:
-                            r._replaceNamespaceURI(rule.namespaceURI)
+            elif not rule.wellformed:
+                # a discarded statement does not advance the order state
+                return expected
 
-                self._namespaces[rule.prefix] = rule.namespaceURI
+            if rule.prefix not in self.namespaces:
+                # add new if not same prefix
+                self.insertRule(rule, _clean=False)
+            else:
+                # same prefix => replace namespaceURI
+                for r in self.cssRules.rulesOfType(rule.NAMESPACE_RULE):
+                    if r.prefix == rule.prefix:
+                        r._replaceNamespaceURI(rule.namespaceURI)
 
+            self._namespaces[rule.prefix] = rule.namespaceURI
             return 2
 
         def variablesrule(expected, seq, token, tokenizer):
@@ -231,10 +235,12 @@ class CSSStyleSheet(css_parser.stylesheets.StyleSheet):
                 self._log.error('CSSStylesheet: CSSVariablesRule not allowed '
                                 'here.', token, xml.dom.HierarchyRequestErr)
                 return expected
-            elif rule.wellformed:
-                self.insertRule(rule)
-                self._updateVariables()
+            elif not rule.wellformed:
+                # a discarded statement does not advance the order state
+                return expected
 
+            self.insertRule(rule)
+            self._updateVariables()
             return 2
 
         def fontfacerule(expected, seq, token, tokenizer):
@@ -285,8 +291,11 @@ class CSSStyleSheet(css_parser.stylesheets.StyleSheet):
             # parse and consume tokens in any case
             rule = css_parser.css.CSSStyleRule(parentStyleSheet=self)
             rule.cssText = self._tokensupto2(tokenizer, token)
-            if rule.wellformed:
-                self.insertRule(rule)
+            if not rule.wellformed:
+                # a discarded statement does not advance the order state
+                return expected
+
+            self.insertRule(rule)
             return 3
 
         # save for possible reset
